@@ -1,0 +1,75 @@
+//go:build verif
+
+package vgirpc
+
+import "net/http"
+
+// Verification hooks for property C31 (external fetches obey the URL validator
+// and the size limits on every hop). Add-only; compiled only with -tags verif.
+//
+// Nothing here re-implements fetch logic: every function below CALLS the real
+// unexported function / method, so a behavioural edit to a clamp, to the
+// redirect policy or to the redaction changes what the harness observes and the
+// constants Gen/Consts.v is regenerated from.
+
+// VerifC31Clamps returns what the real clamp methods make of a configuration:
+// maxRetries(), maxRedirects(), maxFetchBytes(), maxDecompressedBytes().
+func VerifC31Clamps(c *ExternalLocationConfig) (retries, redirects int, fetchBytes, decompressedBytes int64) {
+	return c.maxRetries(), c.maxRedirects(), c.maxFetchBytes(), c.maxDecompressedBytes()
+}
+
+// VerifC31FetchOnce exposes ONE attempt: fetchExternalData with the limits the
+// real clamp methods derive from c (exactly the argument list
+// ResolveExternalLocation passes).
+func VerifC31FetchOnce(c *ExternalLocationConfig, rawURL string) ([]byte, error) {
+	return fetchExternalData(c.httpClient(), rawURL, c.URLValidator,
+		c.maxFetchBytes(), c.maxDecompressedBytes(), c.maxRedirects())
+}
+
+// VerifC31Redact exposes redactExternalURL.
+func VerifC31Redact(rawURL string) string { return redactExternalURL(rawURL) }
+
+// VerifC31FetchSimple exposes fetchSimple (the plain-GET fall back of
+// FetchWithParallelRangeRequests).
+func VerifC31FetchSimple(client *http.Client, rawURL string, cfg *FetchConfig) ([]byte, error) {
+	return fetchSimple(client, rawURL, cfg)
+}
+
+func init() {
+	verifConstProviders = append(verifConstProviders, func() []VerifConst {
+		retries := func(v int) int64 { return int64((&ExternalLocationConfig{MaxRetries: v}).maxRetries()) }
+		redirects := func(v int) int64 { return int64((&ExternalLocationConfig{MaxRedirects: v}).maxRedirects()) }
+		fetch := func(v int64) int64 { return (&ExternalLocationConfig{MaxFetchBytes: v}).maxFetchBytes() }
+		decomp := func(v int64) int64 {
+			return (&ExternalLocationConfig{MaxDecompressedBytes: v}).maxDecompressedBytes()
+		}
+		def := DefaultExternalLocationConfig(nil)
+		return []VerifConst{
+			// maxRetries() on boundary configurations
+			verifNum("c31_retries_neg", retries(-7)),
+			verifNum("c31_retries_0", retries(0)),
+			verifNum("c31_retries_1", retries(1)),
+			verifNum("c31_retries_2", retries(2)),
+			verifNum("c31_retries_3", retries(3)),
+			verifNum("c31_retries_big", retries(1<<30)),
+			// maxRedirects()
+			verifNum("c31_redirects_neg", redirects(-1)),
+			verifNum("c31_redirects_0", redirects(0)),
+			verifNum("c31_redirects_1", redirects(1)),
+			verifNum("c31_redirects_9", redirects(9)),
+			// maxFetchBytes() / maxDecompressedBytes()
+			verifNum("c31_fetch_neg", fetch(-1)),
+			verifNum("c31_fetch_0", fetch(0)),
+			verifNum("c31_fetch_1", fetch(1)),
+			verifNum("c31_decomp_neg", decomp(-1)),
+			verifNum("c31_decomp_0", decomp(0)),
+			verifNum("c31_decomp_1", decomp(1)),
+			// the documented defaults
+			verifNum("c31_default_retries", int64(def.MaxRetries)),
+			verifNum("c31_default_redirects", int64(def.MaxRedirects)),
+			verifNum("c31_default_fetch", def.MaxFetchBytes),
+			verifNum("c31_default_decomp", def.MaxDecompressedBytes),
+			verifBytes("c31_invalid_url_text", redactExternalURL("https://a b/%zz")),
+		}
+	})
+}
